@@ -144,9 +144,11 @@ func c17Run(sc *C17Scenario, spec HostSpec, m *Meter, res *RunResult, mutateRetu
 				v.Value = "scribbled by host"
 			}
 			after := &Outcome{Kind: c.Kind}
-			Observe(vm, after, false)
+			Observe(vm, after, true)
 			if after.Ret != o.Ret || after.Attrs != o.Attrs {
 				w.copyBroken = "after the host modified the value object its handler had returned, the VM's result/variables changed: " + o.Ret + " -> " + after.Ret + " ; " + trunc(o.Attrs, 200) + " -> " + trunc(after.Attrs, 200)
+			} else if after.Detail != o.Detail && after.Panic == "" {
+				w.copyBroken = "after the host modified the value object its handler had returned, the VM's process text changed: " + trunc(o.Detail, 200) + " -> " + trunc(after.Detail, 200)
 			}
 		}
 		w.host.Returned = nil
@@ -174,6 +176,19 @@ func c17Exec(raw json.RawMessage, res *RunResult) {
 	b := c17Run(&sc, merge(sc.Acting, sc.Inert), m, res, false)
 	for k, v := range b.host.Fired {
 		res.FaultN(k, v)
+	}
+	if sc.Acting.Custom {
+		// twin: the same callback returning one refilled object instead of a fresh one per call
+		reuse := sc.Acting
+		reuse.ReuseResult = true
+		c := c17Run(&sc, reuse, m, res, false)
+		res.FaultN("callback_reuses_result_object", c.host.Fired["callback_reuses_result_object"])
+		for i, cmd := range sc.Cmds {
+			if f := DiffOutcome(a.out[i], c.out[i]); f != "" {
+				res.Violate("handler-value-not-copied:"+f, "command %d differs in %s when the custom-dice callback refills and returns one value object instead of allocating a new one per call: a returned value is not used by copy\n  src=%q\n  fresh objects: %s\n  one object:    %s", i, f, cmd.Src, a.out[i].Short(), c.out[i].Short())
+				break
+			}
+		}
 	}
 	var key []string
 	for i, c := range sc.Cmds {
